@@ -7,6 +7,6 @@ require (
 	pgregory.net/rapid v1.3.0
 )
 
-require github.com/pion/logging v0.2.3 // indirect
+require github.com/pion/logging v0.2.3
 
 replace github.com/pion/transport/v3 => /repo
